@@ -10,12 +10,12 @@ import (
 // Script is an append-only SMT-LIB script: declarations, definitions and guarded assumptions.
 // Every obligation is checked against the whole script (or a cone-of-influence slice of it).
 type Script struct {
-	lines    []scriptLine
-	declared map[string]bool
-	n        int
-	prelude  []string // spec functions, uninterpreted functions (emitted first)
-	defIndex map[string]int
-	defTerm  map[string]string
+	lines        []scriptLine
+	declared     map[string]bool
+	n            int
+	prelude      []string // spec functions, uninterpreted functions (emitted first)
+	defIndex     map[string]int
+	defTerm      map[string]string
 	assertIdx    map[string][]int
 	assertIdxLen int
 	mu           sync.Mutex
